@@ -73,6 +73,7 @@ OnTxCon(s0, e) ==
   THEN IF ReleaseHeld_nstart(s, e.s) THEN OK(ReleaseHeld_do(s, e.s, e.sig))
        ELSE Bad(s0, "C08:nstart-exceeded")
   ELSE IF InHeld(s, e.s, e.mid) THEN Bad(s0, "C08:held-out-of-order")
+  ELSE IF k \in DOMAIN s.out /\ s.out[k] = "resp" THEN Bad7(s0, "C07:request-retransmitted-after-its-response")
   ELSE IF k \in DOMAIN s.out THEN Bad(s0, "C06:sent-after-outcome")
   ELSE Bad(s0, "C06:confirmable-nobody-submitted")
 
